@@ -220,7 +220,7 @@ func (t *Table) lookupUnlocked(ip net.IP) *Route {
 		}
 
 		// Calculate prefix length
-		ones, _ := first.Network.Mask.Size()
+		ones := prefixBits(first.Network)
 		if ones > bestPrefixLen {
 			bestPrefixLen = ones
 			bestRoute = first // First is best due to sorting by metric
@@ -231,6 +231,18 @@ func (t *Table) lookupUnlocked(ip net.IP) *Route {
 		return bestRoute.Clone()
 	}
 	return nil
+}
+
+// prefixBits returns the prefix length of a network measured in the 128-bit
+// address space. An IPv4 network (4-byte mask) and the same network written as
+// IPv4-mapped IPv6 (::ffff:a.b.c.d/96+n, 16-byte mask) both contain IPv4
+// addresses, so their prefix lengths must be compared on the same scale.
+func prefixBits(network *net.IPNet) int {
+	ones, bits := network.Mask.Size()
+	if bits == 8*net.IPv4len {
+		ones += 8 * (net.IPv6len - net.IPv4len)
+	}
+	return ones
 }
 
 // LookupAll returns all routes for an IP address, sorted by prefix length then metric.
@@ -257,8 +269,8 @@ func (t *Table) LookupAll(ip net.IP) []*Route {
 
 	// Sort by prefix length (longest first), then by metric
 	sort.Slice(matches, func(i, j int) bool {
-		onesI, _ := matches[i].Network.Mask.Size()
-		onesJ, _ := matches[j].Network.Mask.Size()
+		onesI := prefixBits(matches[i].Network)
+		onesJ := prefixBits(matches[j].Network)
 		if onesI != onesJ {
 			return onesI > onesJ
 		}
